@@ -232,6 +232,8 @@ def generate(prop, seed, tier="quick", fault_free=False):
                       "lift": w.random() < 0.5}
                 if op["mode"] == "callable" and not fault_free and w.random() < 0.5:
                     op["slot"] = w.randrange(2)  # a real file, rewritten by later builds
+                if op["mode"] == "callable" and w.random() < 0.35:
+                    op["as_def"] = True  # one-line function definitions instead of lambdas
                 if not fault_free:
                     if f.random() < 0.25:
                         op["clock_jump"] = f.choice([1.0, 86400.0, 3.0e8])
@@ -296,7 +298,8 @@ def _how(a, b):
         out.append("cross_process")
     for k, tag in (("mode", "other_supply_mode"), ("layout", "other_layout"),
                    ("dataset", "other_dataset"), ("qmd", "annotations"),
-                   ("exec_before", "executed_before"), ("lift", "captured_constants")):
+                   ("exec_before", "executed_before"), ("lift", "captured_constants"),
+                   ("as_def", "def_function_supply")):
         if a.get(k) != b.get(k):
             out.append(tag)
     if a.get("rehash") != b.get("rehash"):
